@@ -155,12 +155,17 @@ func FlightTerm(r *Result, s *tls.VerifServerScript, alpnPrefs []string) (string
 		shSent := countSent(tr.Sent, 2) >= 1
 		if tr.SentHRR {
 			hsid, hcomp, hv, hsv := sid, s.CompressionMethod, hrrVers(tr, s), hrrSV(tr, s)
-			if s.OverridesAfterHRROnly {
+			cookie := len(s.HRRCookie) > 0
+			if s.OverridesAfterHRROnly || tr.HonestHRR {
 				hsid, hcomp, hv, hsv = w.SessionID, 0, tls.VersionTLS12, tls.VersionTLS13
 			}
+			if tr.HonestHRR {
+				cookie = false // issued inside processClientHello: not among tr.Sent
+			} else {
+				shSent = countSent(tr.Sent, 2) >= 2
+			}
 			hrr = fmt.Sprintf("(Some (mkHello %d %d 0 %s %d %d 0 %d %s None []))", hv, hsv, vh.Bytes(hsid), tr.HRRSuite,
-				hcomp, uint16(s.HRRGroup), vh.Bool(len(s.HRRCookie) > 0))
-			shSent = countSent(tr.Sent, 2) >= 2
+				hcomp, uint16(tr.HRRGroup), vh.Bool(cookie))
 		}
 		sh := "(mkHello 771 0 0 [] 0 0 0 0 false None [])" // never sent: the client stopped at the HRR
 		if shSent {
@@ -248,4 +253,11 @@ func ShapeTerm(ks *tls.KeySharePrivateKeys) string {
 		}
 	}
 	return fmt.Sprintf("(KeyShare.mkShape %d %s %s %d)", CurveOfKey(ks.Ecdhe), vh.U16s(extra), vh.Bool(ks.Mlkem != nil), CurveOfKey(ks.MlkemEcdhe))
+}
+
+// ObsTermFinal: as ObsTerm, but suite / group / ALPN / version are what the connection reports after Handshake returned,
+// also when it failed (compared with Model/NegotiateReport.v).
+func ObsTermFinal(r *Result) string {
+	return fmt.Sprintf("(mkObs %s %d %d %d %d %s)", vh.Bool(r.ClientErr == nil), ClientAlert(r), r.FinalState.Version,
+		r.FinalState.CipherSuite, r.FinalCurve, vh.Str(r.FinalState.NegotiatedProtocol))
 }
